@@ -42,7 +42,7 @@ def cases(draw, tier, det):
     if det == "MovingWindow" and params["threshold_scale"] is not None and draw(st.integers(0, 4)) == 0:
         # a significance level close to 1 (accepted: the documented domain is level > 0): for n close to 2 * bandwidth the
         # default threshold is then negative (D30)
-        params["level"] = draw(st.sampled_from([0.999, 0.9999, 0.99999, 0.995]))
+        params["level"] = draw(st.sampled_from([0.999, 0.9999, 0.99999, 0.995, 1e-17, 1e-300]))  # (and levels below 2^-53: infinite threshold)
     if det in ("SeededBinarySegmentation", "CircularBinarySegmentation") and draw(st.integers(0, 3)) == 0:
         # a tuned threshold at a generous level on readings far from zero (1e6 + noise of 1e-3): the scores of quiet stretches are
         # rounding noise of either sign and the tuned quantile comes out negative - not a rounding artefact of 1e-18 but -1e-3 (D35)
